@@ -1,7 +1,7 @@
-(* C14 phase 2: agreement of the two reader models on modules without blackbox instances (part D2) *)
+(* C14 phase 2: agreement of the two reader models on the documented subset (part D2) *)
 From stdpp Require Import strings gmap sets pretty.
 From CG Require Import Model.FastVerilog Proofs.FastVerilogProofs Gen.Gen_fastv.
-From CG Require Import Proofs.FvA0 Proofs.FvA1 Proofs.FvA2 Proofs.FvA3 Proofs.FvA4 Proofs.FvA5 Proofs.FvA6 Proofs.FvA7 Proofs.FvA8 Proofs.FvA9 Proofs.FvA10 Proofs.FvB1 Proofs.FvB2 Proofs.FvB3 Proofs.FvB4 Proofs.FvB5 Proofs.FvC1 Proofs.FvC2 Proofs.FvD1.
+From CG Require Import Proofs.FvA0 Proofs.FvA1 Proofs.FvA2 Proofs.FvP1 Proofs.FvE1 Proofs.FvE2 Proofs.FvE3 Proofs.FvE4 Proofs.FvA3 Proofs.FvE5 Proofs.FvE6 Proofs.FvE7 Proofs.FvA4 Proofs.FvA5 Proofs.FvA6 Proofs.FvA7 Proofs.FvA8 Proofs.FvA9 Proofs.FvA10 Proofs.FvB1 Proofs.FvB2 Proofs.FvB3 Proofs.FvB4 Proofs.FvB5 Proofs.FvC1 Proofs.FvC2 Proofs.FvD1.
 Open Scope string_scope.
 
 (* ---- the statements with symbolic constants: what both readers build, before a name is chosen for the constant nodes *)
@@ -14,24 +14,44 @@ Definition gate_view_sym (it : item) : option (string * (gtype * list opd)) :=
   | IGate t _ (ONet o :: ins) => Some (o, norm_sym t ins)
   | IAssign l r => Some (l, (Buf, [r]))
   | _ => None end.
-Definition goodop (a : ast) (o : opd) : Prop := match o with ONet s => s ∈ idents a | OConst s => s = "1'b0" ∨ s = "1'b1" end.
+(* operands on the input pins of an instance *)
+Definition in_ops (d : bbdef) (conns : list (string * option opd)) : list (string * opd) :=
+  omap (λ c : string * option opd, match c.2 with Some o => if bool_decide (c.1 ∈ bb_in d) then Some (c.1, o) else None | None => None end) conns.
+Definition out_ops (d : bbdef) (conns : list (string * option opd)) : list (string * opd) :=
+  omap (λ c : string * option opd, match c.2 with Some o => if bool_decide (c.1 ∈ bb_in d) then None else Some (c.1, o) | None => None end) conns.
+Definition inst_views_sym (d : bbdef) (inst : string) (conns : list (string * option opd)) : list (string * (gtype * list opd)) :=
+  ((λ pt : string * gtype, (pin inst pt.1, (pt.2, snd <$> filter (λ c : string * opd, c.1 = pt.1) (in_ops d conns)))) <$> pin_list d) ++
+  ((λ c : string * opd, (opd_text c.2, (Buf, [ONet (pin inst c.1)]))) <$> out_ops d conns).
+Definition views_sym (bbs : list bbdef) (it : item) : list (string * (gtype * list opd)) :=
+  match it with
+  | IInst bb inst conns => match find_bb_first bbs bb with Some d => inst_views_sym d inst conns | None => [] end
+  | _ => match gate_view_sym it with Some e => [e] | None => [] end
+  end.
+Definition uses_sym (bbs : list bbdef) (it : item) : list opd :=
+  match it with
+  | IInst bb inst conns => match find_bb_first bbs bb with Some d => snd <$> in_ops d conns | None => [] end
+  | _ => match gate_view_sym it with Some (_, (_, l)) => l | None => [] end
+  end.
+Definition goodop (a : ast) (o : opd) : Prop := match o with ONet s => s ∈ idents a ∨ dotted s = true | OConst s => s = "1'b0" ∨ s = "1'b1" end.
 Definition symv (t0 t1 : string) (v : gtype * list opd) : gtype * list string := (v.1, nm t0 t1 <$> v.2).
 
 Section sym.
-  Variables (a : ast) (t0 t1 : string).
+  Variables (a : ast) (bbs : list bbdef) (t0 t1 : string).
   Hypothesis Hfr : t0 ∉ idents a ∧ t1 ∉ idents a.
   Hypothesis Hne : t0 ≠ t1.
+  Hypothesis Hdot : dotted t0 = false ∧ dotted t1 = false.
   Notation nm := (nm t0 t1). Notation goodop := (goodop a).
 
   Lemma nm_const0 : nm (OConst "1'b0") = t0. Proof. done. Qed.
   Lemma nm_const1 : nm (OConst "1'b1") = t1. Proof. done. Qed.
+  Lemma good_net_ne s : s ∈ idents a ∨ dotted s = true → s ≠ t0 ∧ s ≠ t1.
+  Proof. destruct Hfr, Hdot. intros [?|?]; split; intros ->; congruence. Qed.
   Lemma nm_inj x y : goodop x → goodop y → nm x = nm y → x = y.
   Proof.
-    destruct Hfr as [H0 H1].
     destruct x as [s|s], y as [s'|s']; cbn [FvD2.goodop]; intros Hx Hy.
     - cbn [FvA3.nm]. by intros ->.
-    - destruct Hy as [->| ->]; rewrite ?nm_const0, ?nm_const1; cbn [FvA3.nm]; intros ->; done.
-    - destruct Hx as [->| ->]; rewrite ?nm_const0, ?nm_const1; cbn [FvA3.nm]; intros <-; done.
+    - destruct (good_net_ne s Hx). destruct Hy as [->| ->]; rewrite ?nm_const0, ?nm_const1; cbn [FvA3.nm]; intros ->; done.
+    - destruct (good_net_ne s' Hy). destruct Hx as [->| ->]; rewrite ?nm_const0, ?nm_const1; cbn [FvA3.nm]; intros <-; done.
     - destruct Hx as [->| ->], Hy as [->| ->]; rewrite ?nm_const0, ?nm_const1; try done; intros ?; done.
   Qed.
   Lemma norm_nm t l : Forall goodop l → norm t0 t1 t (nm <$> l) = symv t0 t1 (norm_sym t l).
@@ -53,36 +73,84 @@ Section sym.
     match it with
     | IGate t _ ops => ∃ o ins, ops = ONet o :: ins ∧ Forall goodop ins
     | IAssign l r => goodop r
-    | IInst _ _ _ => False
+    | IInst bb inst conns => ∃ d, find_bb_first bbs bb = Some d ∧ (∀ p o, (p, Some o) ∈ conns → goodop o ∧ (p ∉ bb_in d → is_net o = true))
     | _ => True end.
-  Lemma view_sym it : itemgood it → gate_view t0 t1 it = (λ p, (p.1, symv t0 t1 p.2)) <$> gate_view_sym it.
+
+  Lemma in_ops_dict d conns : snd <$> filter (λ c : string * string, c.1 ∈ bb_in d) (conn_dict t0 t1 conns) = nm <$> (snd <$> in_ops d conns).
   Proof.
-    destruct it as [ns|ns|ns|t inst ops|l r|bb inst conns]; cbn [itemgood]; try done.
-    intros (o & ins & -> & Hl). cbn [gate_view gate_view_sym fmap option_fmap option_map]. by rewrite norm_nm.
+    induction conns as [|[p [o|]] conns IH]; [done| |].
+    - rewrite conn_dict_cons_some, filter_cons. unfold in_ops. cbn [omap list_omap fst snd]. fold (in_ops d conns).
+      destruct (decide (p ∈ bb_in d)); [rewrite bool_decide_eq_true_2 by done|rewrite bool_decide_eq_false_2 by done]; cbn [fst snd]; [rewrite !fmap_cons; cbn [snd]; by rewrite IH|done].
+    - rewrite conn_dict_cons_none. unfold in_ops. cbn [omap list_omap fst snd]. fold (in_ops d conns). done.
   Qed.
-  Lemma view_sym_good it o v : itemgood it → gate_view_sym it = Some (o, v) → Forall goodop v.2.
+  Lemma pin_ops_dict d conns p : snd <$> filter (λ c : string * string, c.1 = p ∧ c.1 ∈ bb_in d) (conn_dict t0 t1 conns) = nm <$> (snd <$> filter (λ c : string * opd, c.1 = p) (in_ops d conns)).
   Proof.
-    destruct it as [ns|ns|ns|t inst ops|l r|bb inst conns]; cbn [itemgood]; try done.
-    - intros (o' & ins & -> & Hl) [= <- <-]. by apply norm_sym_good.
-    - intros Hr [= <- <-]. by apply Forall_singleton.
+    induction conns as [|[p' [o|]] conns IH]; [done| |].
+    - rewrite conn_dict_cons_some, filter_cons. unfold in_ops. cbn [omap list_omap fst snd]. fold (in_ops d conns).
+      destruct (decide (p' ∈ bb_in d)) as [Hpi|Hpi]; [rewrite bool_decide_eq_true_2 by done|rewrite bool_decide_eq_false_2 by done]; cbn [fst snd].
+      + rewrite filter_cons. cbn [fst]. destruct (decide (p' = p)) as [->|Hne'].
+        * rewrite decide_True by done. rewrite !fmap_cons. cbn [snd]. by rewrite IH.
+        * rewrite decide_False by tauto. done.
+      + rewrite decide_False by tauto. done.
+    - rewrite conn_dict_cons_none. unfold in_ops. cbn [omap list_omap fst snd]. fold (in_ops d conns). done.
+  Qed.
+  Lemma out_ops_dict d conns : (∀ p o, (p, Some o) ∈ conns → p ∉ bb_in d → is_net o = true) →
+    filter (λ c : string * string, c.1 ∉ bb_in d) (conn_dict t0 t1 conns) = (λ c : string * opd, (c.1, opd_text c.2)) <$> out_ops d conns.
+  Proof.
+    intros Hn. induction conns as [|[p [o|]] conns IH]; [done| |].
+    - rewrite conn_dict_cons_some, filter_cons. unfold out_ops. cbn [omap list_omap fst snd]. fold (out_ops d conns).
+      assert (IH' := IH (λ p' o' H, Hn p' o' (elem_of_list_further _ _ _ H))).
+      destruct (decide (p ∉ bb_in d)) as [Hpi|Hpi].
+      + rewrite bool_decide_eq_false_2 by done. rewrite fmap_cons. cbn [fst snd]. rewrite IH'. f_equal. f_equal.
+        specialize (Hn p o (elem_of_list_here _ _) Hpi). by destruct o.
+      + rewrite bool_decide_eq_true_2 by (destruct (decide (p ∈ bb_in d)); done). done.
+    - rewrite conn_dict_cons_none. unfold out_ops. cbn [omap list_omap fst snd]. fold (out_ops d conns). apply IH. intros p' o' H. apply Hn. by right.
   Qed.
 
-  Definition stp_sym (G : gmap string (gtype * list opd)) (it : item) :=
-    match gate_view_sym it with Some (o, v) => <[o := v]> G | None => G end.
+  Lemma views_sym_eq it : itemgood it → views t0 t1 bbs it = (λ e, (e.1, symv t0 t1 e.2)) <$> views_sym bbs it.
+  Proof.
+    destruct it as [ns|ns|ns|t inst ops|l r|bb inst conns]; cbn [itemgood]; try done.
+    - intros (o & ins & -> & Hl). cbn [FvA3.views views_sym FvA3.gate_view gate_view_sym]. rewrite norm_nm by done. reflexivity.
+    - intros (d & Hf & Hc). cbn [FvA3.views views_sym]. rewrite Hf. unfold FvA3.inst_views, inst_views_sym. rewrite fmap_app, <- !list_fmap_compose. f_equal.
+      + apply list_fmap_ext. intros i [p t] _. cbn [fst snd compose]. unfold symv. cbn [fst snd]. by rewrite pin_ops_dict.
+      + rewrite (out_ops_dict d conns) by (intros p o Hin Hp; by apply (Hc p o Hin)). rewrite <- list_fmap_compose. done.
+  Qed.
+  Lemma uses_sym_eq it : itemgood it → uses t0 t1 bbs it = nm <$> uses_sym bbs it.
+  Proof.
+    destruct it as [ns|ns|ns|t inst ops|l r|bb inst conns]; cbn [itemgood]; try done.
+    - intros (o & ins & -> & Hl). cbn [FvA3.uses uses_sym FvA3.gate_view gate_view_sym]. rewrite norm_nm by done. done.
+    - intros (d & Hf & Hc). cbn [FvA3.uses uses_sym]. rewrite Hf. apply in_ops_dict.
+  Qed.
+  Lemma in_ops_elem d conns p o : (p, o) ∈ in_ops d conns → (p, Some o) ∈ conns ∧ p ∈ bb_in d.
+  Proof.
+    unfold in_ops. rewrite elem_of_list_omap. intros ([p' [o'|]] & Hin & Heq); cbn [fst snd] in Heq; [|done]. case_bool_decide; [|done]. by injection Heq as -> ->.
+  Qed.
+  Lemma out_ops_elem d conns p o : (p, o) ∈ out_ops d conns → (p, Some o) ∈ conns ∧ p ∉ bb_in d.
+  Proof.
+    unfold out_ops. rewrite elem_of_list_omap. intros ([p' [o'|]] & Hin & Heq); cbn [fst snd] in Heq; [|done]. case_bool_decide; [done|]. by injection Heq as -> ->.
+  Qed.
+  Lemma views_sym_good it o v : itemgood it → (o, v) ∈ views_sym bbs it → Forall goodop v.2.
+  Proof.
+    destruct it as [ns|ns|ns|t inst ops|l r|bb inst conns]; cbn [itemgood].
+    1-3: (intros _ H; by apply elem_of_nil in H).
+    - intros (o' & ins & -> & Hl). cbn [views_sym gate_view_sym]. intros [= -> ->]%elem_of_list_singleton. by apply norm_sym_good.
+    - cbn [views_sym gate_view_sym]. intros Hr [= -> ->]%elem_of_list_singleton. by apply Forall_singleton.
+    - intros (d & Hf & Hc). cbn [views_sym]. rewrite Hf. unfold inst_views_sym. intros [Hv|Hv]%elem_of_app.
+      + apply elem_of_list_fmap in Hv as ([p t] & [= -> ->] & _). cbn [snd]. apply Forall_forall. intros x ([p' o'] & -> & [_ Hin]%elem_of_list_filter)%elem_of_list_fmap.
+        apply in_ops_elem in Hin as [Hin _]. by destruct (Hc p' o' Hin).
+      + apply elem_of_list_fmap in Hv as ([p o'] & [= -> ->] & _). cbn [snd]. apply Forall_singleton. cbn [FvD2.goodop]. right. apply pin_dotted.
+  Qed.
+
+  Definition stp_sym (G : gmap string (gtype * list opd)) (it : item) := foldl (λ G e, <[e.1 := e.2]> G) G (views_sym bbs it).
+  Lemma foldl_ins_fmap {V W} (f : V → W) (l : list (string * V)) : ∀ G : gmap string V,
+    foldl (λ G e, <[e.1 := e.2]> G) (f <$> G) ((λ e : string * V, (e.1, f e.2)) <$> l) = f <$> foldl (λ G e, <[e.1 := e.2]> G) G l.
+  Proof. induction l as [|e l IH]; intros G; [done|]. cbn [foldl fmap list_fmap fst snd]. by rewrite <- fmap_insert, IH. Qed.
   Lemma sG_sym items : ∀ s G, sG s = symv t0 t1 <$> G → (∀ it, it ∈ items → itemgood it) →
-    sG (foldl (stp t0 t1) s items) = symv t0 t1 <$> foldl stp_sym G items.
+    sG (foldl (stp t0 t1 bbs) s items) = symv t0 t1 <$> foldl stp_sym G items.
   Proof.
     induction items as [|it items IH]; intros s G Hs Hg; cbn [foldl]; [done|]. apply IH; [|intros; apply Hg; by right].
     assert (Hi : itemgood it) by (apply Hg; by left). unfold stp_sym.
-    destruct it as [ns|ns|ns|t inst ops|l r|bb inst conns]; try done; unfold stp; rewrite (view_sym _ Hi);
-      destruct (gate_view_sym _) as [[o [ty l']]|]; cbn [fmap option_fmap option_map fst snd sG]; try done; by rewrite fmap_insert, Hs.
-  Qed.
-  Lemma symG_good items : ∀ G, (∀ o v, G !! o = Some v → Forall goodop v.2) → (∀ it, it ∈ items → itemgood it) →
-    ∀ o v, foldl stp_sym G items !! o = Some v → Forall goodop v.2.
-  Proof.
-    induction items as [|it items IH]; intros G HG Hg; cbn [foldl]; [done|]. apply IH; [|intros; apply Hg; by right].
-    assert (Hi : itemgood it) by (apply Hg; by left). unfold stp_sym. destruct (gate_view_sym it) as [[o v]|] eqn:E; [|done].
-    intros o' v' [[-> <-]|[_ ?]]%lookup_insert_Some; [by eapply view_sym_good|by eapply HG].
+    destruct it as [ns|ns|ns|t inst ops|l r|bb inst conns]; try done; unfold stp; cbn [sG]; rewrite (views_sym_eq _ Hi), Hs; apply foldl_ins_fmap.
   Qed.
 End sym.
-Definition symG (a : ast) : gmap string (gtype * list opd) := foldl stp_sym ∅ (a_items a).
+Definition symG (bbs : list bbdef) (a : ast) : gmap string (gtype * list opd) := foldl (stp_sym bbs) ∅ (a_items a).
